@@ -3,7 +3,7 @@
    Definitions: Sem/AspRefGringo.v, Model/EvalAspGringo.v.  Statements: end of Properties/C01.v. *)
 From Coq Require Import List Ascii String ZArith Bool Lia.
 From Anthem Require Import Base.ISet Syntax.Fol Syntax.Asp Sem.Domain Sem.Sat Sem.AspRef Sem.AspRefGringo
-  Model.Eval Model.EvalAsp Model.EvalAspGringo Proofs.EvalAspOk.
+  Model.Eval Model.EvalAsp Model.EvalAspGringo Proofs.EvalAspOk Model.TauStar Proofs.TauStarProgram.
 Import ListNotations.
 Open Scope string_scope.
 Open Scope list_scope.
@@ -469,3 +469,217 @@ Proof. apply ref_rule_eval_gen_m_outside. exact divmod_agree_ag. Qed.
 Theorem ref_rule_eval_clingo_outside W H T r : rule_in_class DClingo neg_operand_b W r = false ->
   ref_rule_eval_m DClingo W H T r = ref_rule_eval_m DAnthem W H T r.
 Proof. apply ref_rule_eval_gen_m_outside. exact divmod_agree_clingo. Qed.
+
+(* ------------------------------------------------------------------------------------------ *)
+(* D. tau* against the published readings                                                      *)
+(* ------------------------------------------------------------------------------------------ *)
+Lemma ag_is_anthem_outside n1 n2 : ~ neg_divisor n1 n2 -> forall q m, qr_ag n1 n2 q m <-> qr_anthem n1 n2 q m.
+Proof. intros Hn q m. symmetry. apply anthem_is_ag_outside. exact Hn. Qed.
+Lemma clingo_is_anthem_outside n1 n2 : ~ neg_operand n1 n2 -> forall q m, qr_clingo n1 n2 q m <-> qr_anthem n1 n2 q m.
+Proof. intros Hn q m. symmetry. apply anthem_is_clingo_outside. exact Hn. Qed.
+
+Section TauStarLevel.
+Variable FI : fint.
+
+(* OUTSIDE the class, C01_ht / C01_stable hold with the published reference semantics.  The class
+   may be tested in either reading (the two tests are given separately because no classical axiom is
+   used to show them equivalent). *)
+Theorem tau_star_ht_ag_outside P G H T : tau_star P = Some G ->
+  ~ program_reaches qr_anthem neg_divisor P \/ ~ program_reaches qr_ag neg_divisor P ->
+  (theory_hsat FI H T G <-> ref_sat_with qr_ag H T P).
+Proof.
+  intros HG Hn. rewrite (tau_star_ht FI P G H T HG). destruct Hn as [Hn|Hn].
+  - exact (ref_sat_agree_outside qr_anthem qr_ag neg_divisor anthem_is_ag_outside P Hn H T).
+  - symmetry. exact (ref_sat_agree_outside qr_ag qr_anthem neg_divisor ag_is_anthem_outside P Hn H T).
+Qed.
+Theorem tau_star_stable_ag_outside P G T Facts : tau_star P = Some G ->
+  ~ program_reaches qr_anthem neg_divisor P \/ ~ program_reaches qr_ag neg_divisor P ->
+  (equilibrium FI T G Facts <-> stable_with qr_ag T P Facts).
+Proof.
+  intros HG Hn. rewrite (tau_star_stable FI P G T Facts HG). destruct Hn as [Hn|Hn].
+  - exact (stable_agree_outside qr_anthem qr_ag neg_divisor anthem_is_ag_outside P Hn T Facts).
+  - symmetry. exact (stable_agree_outside qr_ag qr_anthem neg_divisor ag_is_anthem_outside P Hn T Facts).
+Qed.
+Theorem tau_star_ht_clingo_outside P G H T : tau_star P = Some G ->
+  ~ program_reaches qr_anthem neg_operand P \/ ~ program_reaches qr_clingo neg_operand P ->
+  (theory_hsat FI H T G <-> ref_sat_with qr_clingo H T P).
+Proof.
+  intros HG Hn. rewrite (tau_star_ht FI P G H T HG). destruct Hn as [Hn|Hn].
+  - exact (ref_sat_agree_outside qr_anthem qr_clingo neg_operand anthem_is_clingo_outside P Hn H T).
+  - symmetry. exact (ref_sat_agree_outside qr_clingo qr_anthem neg_operand clingo_is_anthem_outside P Hn H T).
+Qed.
+Theorem tau_star_stable_clingo_outside P G T Facts : tau_star P = Some G ->
+  ~ program_reaches qr_anthem neg_operand P \/ ~ program_reaches qr_clingo neg_operand P ->
+  (equilibrium FI T G Facts <-> stable_with qr_clingo T P Facts).
+Proof.
+  intros HG Hn. rewrite (tau_star_stable FI P G T Facts HG). destruct Hn as [Hn|Hn].
+  - exact (stable_agree_outside qr_anthem qr_clingo neg_operand anthem_is_clingo_outside P Hn T Facts).
+  - symmetry. exact (stable_agree_outside qr_clingo qr_anthem neg_operand clingo_is_anthem_outside P Hn T Facts).
+Qed.
+End TauStarLevel.
+
+(* ---- INSIDE the class: the recorded witnesses ---- *)
+Definition no_atoms : pint := fun _ _ => False.
+Definition only_atom (p : string) (c : Z) : pint := fun q a => q = p /\ a = [VNum c].
+Definition fact (p : string) (t : term) : program := [mkrule (HBasic (mkatom p [t])) []].
+
+(* stable models of a one-fact program p(t). whose term has no value / the single value c *)
+Lemma fact_stable_none qr p t : (forall sg v, ~ vals_with qr sg t v) ->
+  forall T, stable_with qr T (fact p t) no_atoms <-> (forall q a, ~ T q a).
+Proof.
+  intros Hv T.
+  assert (Hsat : forall H T', ref_sat_with qr H T' (fact p t)).
+  { intros H T' r [<-|[]] sg. split; intros _ vs Hvs; inversion Hvs; subst; exfalso; eapply Hv; eauto. }
+  split.
+  - intros [_ Hmin] q a Hq. exact (Hmin no_atoms (fun _ _ F => match F with end) (Hsat _ _) (fun _ _ F => F) q a Hq).
+  - intros Hno. split; [split; [apply Hsat|intros q a []]|]. intros H _ _ _ q a Hq. exfalso. exact (Hno q a Hq).
+Qed.
+Lemma fact_stable_single qr p t c : (forall sg v, vals_with qr sg t v <-> v = VNum c) ->
+  forall T, stable_with qr T (fact p t) no_atoms <-> (forall q a, T q a <-> only_atom p c q a).
+Proof.
+  intros Hv T.
+  assert (Hsat : forall H T', ref_sat_with qr H T' (fact p t) <-> (H p [VNum c] /\ T' p [VNum c])).
+  { intros H T'. split.
+    - intros Hs. destruct (Hs _ (or_introl eq_refl) (fun _ => VNum 0%Z)) as [Hh Ht].
+      split; [apply (Hh (Forall_nil _))|apply (Ht (Forall_nil _))];
+        (constructor; [apply Hv; reflexivity|constructor]).
+    - intros [Hh Ht] r [<-|[]] sg. split; intros _ vs Hvs; inversion Hvs as [|? v ? vs' Hv1 Hv2]; subst;
+        inversion Hv2; subst; apply Hv in Hv1; subst; assumption. }
+  split.
+  - intros [[Hs _] Hmin] q a. split.
+    + intros Hq. apply (Hmin (only_atom p c)); [| |intros ? ? []|exact Hq].
+      * intros q' a' [-> ->]. apply Hsat in Hs. tauto.
+      * apply Hsat. apply Hsat in Hs. split; [split; reflexivity|tauto].
+    + intros [-> ->]. apply Hsat in Hs. tauto.
+  - intros HT. split; [split; [|intros q a []]|].
+    + apply Hsat. split; apply HT; split; reflexivity.
+    + intros H _ Hs _ q a Hq. apply HT in Hq. destruct Hq as [-> ->]. apply Hsat in Hs. tauto.
+Qed.
+
+Definition tnum (z : Z) : term := TPre (PNum z).
+(* out(7/(0-2)).   anthem's own parser has no negative numeral literals: -2 is written 0-2 *)
+Definition t_F24 : term := TBin ADiv (tnum 7) (TBin ASub (tnum 0) (tnum 2)).
+Definition P_F24 : program := fact "out" t_F24.
+(* out((0-7)/2). *)
+Definition t_F24c : term := TBin ADiv (TBin ASub (tnum 0) (tnum 7)) (tnum 2).
+Definition P_F24c : program := fact "out" t_F24c.
+
+Lemma t_F24_vals qr sg v : vals_with qr sg t_F24 v <-> exists q m, qr 7%Z (-2)%Z q m /\ v = VNum q.
+Proof.
+  cbn. split.
+  - intros (n1 & n2 & q & m & E1 & (a & b & Ea & Eb & E2) & Hq & ->).
+    inversion E1; inversion Ea; inversion Eb; subst. inversion E2; subst. eauto.
+  - intros (q & m & Hq & ->). exists 7%Z, (-2)%Z, q, m. repeat split; auto. exists 0%Z, 2%Z. auto.
+Qed.
+Lemma t_F24c_vals qr sg v : vals_with qr sg t_F24c v <-> exists q m, qr (-7)%Z 2%Z q m /\ v = VNum q.
+Proof.
+  cbn. split.
+  - intros (n1 & n2 & q & m & (a & b & Ea & Eb & E1) & E2 & Hq & ->).
+    inversion E2; inversion Ea; inversion Eb; subst. inversion E1; subst. eauto.
+  - intros (q & m & Hq & ->). exists (-7)%Z, 2%Z, q, m. repeat split; auto. exists 0%Z, 7%Z. auto.
+Qed.
+
+Lemma t_F24_anthem sg v : ~ vals_with qr_anthem sg t_F24 v.
+Proof. rewrite t_F24_vals. intros (q & m & Hq & _). unfold qr_anthem in Hq. lia. Qed.
+Lemma t_F24_ag sg v : vals_with qr_ag sg t_F24 v <-> v = VNum (-4).
+Proof.
+  rewrite t_F24_vals. split.
+  - intros (q & m & (_ & -> & _) & ->). reflexivity.
+  - intros ->. exists (-4)%Z, (-1)%Z. repeat split. discriminate.
+Qed.
+Lemma t_F24_clingo sg v : vals_with qr_clingo sg t_F24 v <-> v = VNum (-3).
+Proof.
+  rewrite t_F24_vals. split.
+  - intros (q & m & (_ & -> & _) & ->). reflexivity.
+  - intros ->. exists (-3)%Z, 1%Z. repeat split. discriminate.
+Qed.
+Lemma t_F24c_anthem sg v : vals_with qr_anthem sg t_F24c v <-> v = VNum (-4).
+Proof.
+  rewrite t_F24c_vals. split.
+  - intros (q & m & Hq & ->). apply qr_anthem_iff in Hq. destruct Hq as (_ & -> & _). reflexivity.
+  - intros ->. exists (-4)%Z, 1%Z. split; [unfold qr_anthem; lia|reflexivity].
+Qed.
+Lemma t_F24c_clingo sg v : vals_with qr_clingo sg t_F24c v <-> v = VNum (-3).
+Proof.
+  rewrite t_F24c_vals. split.
+  - intros (q & m & (_ & -> & _) & ->). reflexivity.
+  - intros ->. exists (-3)%Z, (-1)%Z. repeat split. discriminate.
+Qed.
+
+Lemma P_F24_defined : exists G, tau_star P_F24 = Some G.
+Proof. apply tau_star_defined. right. vm_compute. reflexivity. Qed.
+Lemma P_F24c_defined : exists G, tau_star P_F24c = Some G.
+Proof. apply tau_star_defined. right. vm_compute. reflexivity. Qed.
+
+Lemma only_atom_inhabited p c : ~ (forall q a, ~ only_atom p c q a).
+Proof. intros H. apply (H p [VNum c]). split; reflexivity. Qed.
+Lemma only_atom_neq p c c' : c <> c' -> ~ (forall q a, only_atom p c q a <-> only_atom p c' q a).
+Proof.
+  intros Hc H. destruct (proj1 (H p [VNum c]) (conj eq_refl eq_refl)) as [_ E]. inversion E. contradiction.
+Qed.
+
+(* tau*(out(7/(0-2)).) has the empty equilibrium model; under Abstract Gringo the program's only stable
+   model is {out(-4)}, under clingo {out(-3)}; neither is an equilibrium model of tau* *)
+Theorem tau_star_not_abstract_gringo_negative_divisor FI :
+  exists G, tau_star P_F24 = Some G /\
+    equilibrium FI no_atoms G no_atoms /\ ~ stable_with qr_ag no_atoms P_F24 no_atoms /\
+    stable_with qr_ag (only_atom "out" (-4)) P_F24 no_atoms /\ ~ equilibrium FI (only_atom "out" (-4)) G no_atoms.
+Proof.
+  destruct P_F24_defined as [G HG]. exists G. split; [exact HG|].
+  pose proof (fact_stable_none qr_anthem "out" t_F24 t_F24_anthem) as Ha.
+  pose proof (fact_stable_single qr_ag "out" t_F24 (-4) t_F24_ag) as Hg.
+  split; [|split; [|split]].
+  - apply (proj2 (tau_star_stable FI P_F24 G no_atoms no_atoms HG)). apply (proj2 (Ha no_atoms)). intros q a [].
+  - intros Hs. apply (only_atom_inhabited "out" (-4)). intros q a Hq.
+    apply (proj1 (Hg no_atoms) Hs q a) in Hq. exact Hq.
+  - apply Hg. tauto.
+  - intros He. apply (proj1 (tau_star_stable FI P_F24 G _ no_atoms HG)) in He.
+    exact (only_atom_inhabited "out" (-4) (proj1 (Ha _) He)).
+Qed.
+Theorem tau_star_not_clingo_negative_divisor FI :
+  exists G, tau_star P_F24 = Some G /\
+    equilibrium FI no_atoms G no_atoms /\ ~ stable_with qr_clingo no_atoms P_F24 no_atoms /\
+    stable_with qr_clingo (only_atom "out" (-3)) P_F24 no_atoms /\ ~ equilibrium FI (only_atom "out" (-3)) G no_atoms.
+Proof.
+  destruct P_F24_defined as [G HG]. exists G. split; [exact HG|].
+  pose proof (fact_stable_none qr_anthem "out" t_F24 t_F24_anthem) as Ha.
+  pose proof (fact_stable_single qr_clingo "out" t_F24 (-3) t_F24_clingo) as Hg.
+  split; [|split; [|split]].
+  - apply (proj2 (tau_star_stable FI P_F24 G no_atoms no_atoms HG)). apply (proj2 (Ha no_atoms)). intros q a [].
+  - intros Hs. apply (only_atom_inhabited "out" (-3)). intros q a Hq.
+    apply (proj1 (Hg no_atoms) Hs q a) in Hq. exact Hq.
+  - apply Hg. tauto.
+  - intros He. apply (proj1 (tau_star_stable FI P_F24 G _ no_atoms HG)) in He.
+    exact (only_atom_inhabited "out" (-3) (proj1 (Ha _) He)).
+Qed.
+(* tau*(out((0-7)/2).) has the equilibrium model {out(-4)} (= Abstract Gringo: positive divisor);
+   clingo's answer is {out(-3)} *)
+Theorem tau_star_not_clingo_negative_dividend FI :
+  exists G, tau_star P_F24c = Some G /\
+    equilibrium FI (only_atom "out" (-4)) G no_atoms /\ ~ stable_with qr_clingo (only_atom "out" (-4)) P_F24c no_atoms /\
+    stable_with qr_clingo (only_atom "out" (-3)) P_F24c no_atoms /\ ~ equilibrium FI (only_atom "out" (-3)) G no_atoms.
+Proof.
+  destruct P_F24c_defined as [G HG]. exists G. split; [exact HG|].
+  pose proof (fact_stable_single qr_anthem "out" t_F24c (-4) t_F24c_anthem) as Ha.
+  pose proof (fact_stable_single qr_clingo "out" t_F24c (-3) t_F24c_clingo) as Hg.
+  split; [|split; [|split]].
+  - apply (proj2 (tau_star_stable FI P_F24c G _ no_atoms HG)). apply (proj2 (Ha _)). tauto.
+  - intros Hs. apply (only_atom_neq "out" (-4) (-3)); [discriminate|]. exact (proj1 (Hg _) Hs).
+  - apply Hg. tauto.
+  - intros He. apply (proj1 (tau_star_stable FI P_F24c G _ no_atoms HG)) in He.
+    apply (only_atom_neq "out" (-3) (-4)); [discriminate|]. exact (proj1 (Ha _) He).
+Qed.
+
+(* the witnesses are inside their classes, in both readings *)
+Lemma P_F24_in_class qr : program_reaches qr neg_divisor P_F24.
+Proof.
+  exists (mkrule (HBasic (mkatom "out" [t_F24])) []), (fun _ => VNum 0%Z). split; [left; reflexivity|].
+  left. left. right. right. split; [left; reflexivity|]. exists 7%Z, (-2)%Z.
+  split; [reflexivity|]. split; [exists 0%Z, 2%Z; repeat split; reflexivity|]. unfold neg_divisor. lia.
+Qed.
+Lemma P_F24c_in_class qr : program_reaches qr neg_operand P_F24c.
+Proof.
+  exists (mkrule (HBasic (mkatom "out" [t_F24c])) []), (fun _ => VNum 0%Z). split; [left; reflexivity|].
+  left. left. right. right. split; [left; reflexivity|]. exists (-7)%Z, 2%Z.
+  split; [exists 0%Z, 7%Z; repeat split; reflexivity|]. split; [reflexivity|]. unfold neg_operand. lia.
+Qed.
